@@ -4,7 +4,7 @@
    valid row pointer and every D — in particular when constrained rows store no entry (finding F6 on the
    pinned tree: there this lemma does not compile). *)
 From Coq Require Import List ZArith.
-Require Import Base.C05_Np Model.C05_BC Model.C05_MPC Model.C05_Ext Proofs.C05_IdxProofs Proofs.C05_CondenseProofs Proofs.C05_EnforceProofs
+Require Import Base.C05_Np Model.C05_BC Model.C05_MPC Model.C05_Ext Model.C05_Solve Proofs.C05_IdxProofs Proofs.C05_CondenseProofs Proofs.C05_EnforceProofs
                Proofs.C05_ChainProofs Proofs.C05_PenalizeProofs Proofs.C05_ExtProofs Gen.C05Gen.
 
 Lemma gen_flatten_dict_is_model : forall views, gen_flatten_dict views = flatten_dofs views.
@@ -53,6 +53,10 @@ Lemma gen_mpc_expand_is_model : forall R (o : ring_ops R) T g U x, gen_mpc_expan
 Proof. reflexivity. Qed.
 Lemma gen_expand_tuple_is_model : forall R (o : ring_ops R) x perm f z, gen_expand_tuple o x perm f z = expand_tuple o x perm f z.
 Proof. reflexivity. Qed.
+
+(* the dispatch wrappers solve / solve_linear / solve_eigen *)
+Lemma gen_solve_is_model : forall R (o : ring_ops R) lin eig A b x Ia, gen_solve o lin eig A b x Ia = solve_model o lin eig A b x Ia.
+Proof. intros R o lin eig A b x Ia. destruct b; reflexivity. Qed.
 
 (* the index arithmetic *)
 Lemma gen_enforce_idx_is_chain : forall ip D, gen_enforce_idx ip D = chain_offsets ip D.
